@@ -268,7 +268,9 @@ def judge_kill(log, lines=False):
     bad.append('ThreadTerminationError surfaced in the finish handler, outside the body')
   if 'async_exc' in idx and 'body-exc' not in idx and 'handler-exc' not in idx and not lines:
     bad.append('an asynchronous kill was delivered but never raised in the thread')
-  if 'finished' not in idx:
+  if 'finished' not in idx and not (lines and 'handler-exc' in idx):
+    # (statement-level exploration: an exception that was requested while the body was still running may land in
+    # the finish handler - the window the class docstring admits, see above)
     bad.append('the finish handler did not complete')
   return bad
 
